@@ -475,7 +475,11 @@ func kCrash(args []string) (string, string) {
 	if len(args) > 3 {
 		return impl, oracle
 	}
-	return impl + " @@ " + strings.Join(fdesc, "|"), oracle
+	aug := strings.Join(fdesc, "|")
+	if aug == "" {
+		aug = "-" // nothing was written at all
+	}
+	return impl + " @@ " + aug, oracle
 }
 
 func genCrash(r *rng, n int, tier string, emit func(string, ...string)) {
